@@ -96,6 +96,8 @@ class Scenario:
         shutil.rmtree(self.dir, ignore_errors=True)
         os.makedirs(self.dir)
         self.variants = []          # (name, [paths], description)
+        self.ref = {}               # variant index -> index of the variant it must equal (default 0)
+        self.hdrs = {}              # variant index -> SADUMP headers in the order passed (model input)
         self.pagesize = 4096
         k = self.rng.random() if fmt is None else {"diskdump": 0.0, "elf": 0.6, "sadump": 0.9}[fmt]
         if k < 0.5:
@@ -218,12 +220,66 @@ class Scenario:
         starts = [a for a, b in runs if a > 0]
         ends = [b for a, b in runs if b < self.npfn]
         mids = [rng.randrange(a + 1, b) for a, b in runs if b - a >= 2]
+        common = open(self.path("data")).read()
+
+        def guid(k, salt):
+            return "%08x-%04x-%04x-%04x-%012x" % (0xa0000000 + salt, k, 0x4000 + k, 0x8000 + salt % 0x1000,
+                                                  0x112233440000 + 257 * k + salt)
+
+        ids = {}
+
+        def idn(x):
+            return ids.setdefault(x, len(ids) + 1)
+
+        stamp, sysid, setid = [l.split("=", 1)[1].strip() for l in self.base.split("\n")
+                               if l.startswith(("timestamp", "system_id", "disk_set_id"))]
+
+        def build_set(tag, nums, wins, vols, table, disk_num, over=None):
+            """one disk set: every disk has its own volume id, disk #1 carries the table;
+            `over` = {member index: {parameter: value}} makes one header disagree.
+            -> (member file names, model headers)"""
+            over = over or {}
+            tb = ["@volume"]
+            for v in table:
+                hx = v.replace("-", "")
+                tb.append(" ".join(hx[i:i + 2] for i in range(0, 32, 2)) + " 00*16")
+            with open(self.path("data." + tag), "w") as f:
+                f.write(common + "\n".join(tb) + "\n")
+            members, hdrs = [], []
+            for i, (first, last) in enumerate(wins):
+                par = {"timestamp": stamp, "system_id": sysid, "disk_set_id": setid}
+                par.update(over.get(i, {}))
+                cfg = "\n".join(l for l in self.base.split("\n")
+                                if not l.startswith(("timestamp", "system_id", "disk_set_id", "DATA")))
+                cfg += ("timestamp = %s\nsystem_id = %s\ndisk_set_id = %s\nDATA = %s\n"
+                        % (par["timestamp"], par["system_id"], par["disk_set_id"], self.path("data." + tag)))
+                name = "%s.%d" % (tag, i + 1)
+                tool("mksadump", self.path(name),
+                     cfg + "type = diskset\ndisk_num = %d\nset_disk_set = %d\nvolume_id = %s\n"
+                     "first_pfn = %d\nlast_pfn = %d\n" % (disk_num, nums[i], vols[i], first, last), self.dir)
+                members.append(name)
+                hdrs.append("%x:%x:%x:%x:%x:%x:%s" % (
+                    nums[i], idn(vols[i]), disk_num if nums[i] == 1 else 0, idn(par["system_id"]),
+                    idn(par["disk_set_id"]), idn(par["timestamp"]),
+                    ".".join("%x" % idn(v) for v in table) if nums[i] == 1 else ""))
+            return members, hdrs
+
+        def orders(ndisk):
+            perms = list(itertools.permutations(range(ndisk)))
+            if ndisk == 4:
+                rot = [tuple((i + r) % 4 for i in range(4)) for r in range(4)]
+                perms = rot + [(3, 2, 1, 0)] + rng.sample([q for q in perms if q not in rot], 5)
+            return perms
+
+        last_good = None
         for ndisk in (2, 3, 4):
             pool = []
             for lst in (starts, ends, mids):
                 if lst:
                     pool.append(rng.choice(lst))
             pool += starts + ends + mids + list(range(1, self.npfn))
+            if rng.random() < 0.4:
+                pool.insert(0, rng.choice([1, 2]))          # a small first disk
             cuts = []
             for c in pool:
                 if c not in cuts and 0 < c < self.npfn:
@@ -235,23 +291,71 @@ class Scenario:
             cuts = sorted(cuts)
             bounds = [0] + cuts + [self.npfn]
             wins = [(bounds[i], bounds[i + 1] - 1) for i in range(ndisk)]
-            members = []
-            for i, (first, last) in enumerate(wins):
-                name = "set%d.%d" % (ndisk, i + 1)
-                tool("mksadump", self.path(name),
-                     self.base + "type = diskset\ndisk_num = %d\nset_disk_set = %d\n"
-                     "first_pfn = %d\nlast_pfn = %d\n" % (ndisk, i + 1, first, last), self.dir)
-                members.append(name)
-            perms = list(itertools.permutations(range(ndisk)))
-            if ndisk == 4:
-                rot = [tuple((i + r) % 4 for i in range(4)) for r in range(4)]
-                perms = rot + [(3, 2, 1, 0)] + rng.sample([q for q in perms if q not in rot], 5)
-            for perm in perms:
+            salt = rng.randrange(1, 0x0fffffff)
+            vols = [guid(i + 1, salt) for i in range(ndisk)]        # distinct, as real disks have
+            nums = list(range(1, ndisk + 1))
+            members, hdrs = build_set("set%d" % ndisk, nums, wins, vols, vols, ndisk)
+            last_good = (ndisk, wins, vols)
+            for perm in orders(ndisk):
+                self.hdrs[len(self.variants)] = [hdrs[i] for i in perm]
                 self.variants.append(("diskset%d-%s" % (ndisk, "".join(str(i + 1) for i in perm)),
                                       [self.path(members[i]) for i in perm],
                                       "%d-disk set, inclusive PFN windows %s (runs of dumped pages %s), "
-                                      "disks passed in order %s"
+                                      "distinct volume ids, disks passed in order %s"
                                       % (ndisk, wins, runs, [i + 1 for i in perm])))
+        # an inconsistent set: one header disagrees with the rest -> must be refused, with the
+        # status the model predicts, in every order
+        KINDS = ["volume id", "table entry", "time stamp", "system id", "disk set id", "disk_num",
+                 "duplicate disk number", "disk number beyond the number of files"]
+        if last_good:
+            ndisk, wins, vols = last_good
+            for kn, kind in enumerate(KINDS):
+                nums = list(range(1, ndisk + 1))
+                pvols, table, disk_num, over = list(vols), list(vols), ndisk, {}
+                k = rng.randrange(1, ndisk)
+                j = rng.randrange(ndisk)
+                what = kind
+                if kind == "volume id":
+                    pvols[k] = guid(k + 1, 0x0bad0000 + rng.randrange(0xffff))
+                    what = "volume id of disk #%d not in the table of disk #1" % (k + 1)
+                elif kind == "table entry":
+                    table[k] = guid(k + 1, 0x0bad0000 + rng.randrange(0xffff))
+                    what = "table entry %d of disk #1 differs from the volume id of disk #%d" % (k + 1, k + 1)
+                elif kind == "time stamp":
+                    over[j] = {"timestamp": "2023-01-02 03:04:05"}
+                    what = "time stamp of disk #%d" % (j + 1)
+                elif kind == "system id":
+                    over[j] = {"system_id": "ffeeddcc-bbaa-9988-7766-554433221100"}
+                    what = "system id of disk #%d" % (j + 1)
+                elif kind == "disk set id":
+                    over[j] = {"disk_set_id": "01010101-0202-0303-0404-050505050505"}
+                    what = "disk set id of disk #%d" % (j + 1)
+                elif kind == "disk_num":
+                    disk_num = ndisk + rng.choice([1, -1]) if ndisk > 2 else ndisk + 1
+                    what = "disk #1 announces %d disks" % disk_num
+                elif kind == "duplicate disk number":
+                    if ndisk < 3:
+                        continue
+                    # the last disk claims the number (and carries the volume id) of disk #2
+                    nums[ndisk - 1] = 2
+                    pvols[ndisk - 1] = vols[1]
+                    what = "two files say they are disk #2"
+                else:
+                    nums[k] = ndisk + 1
+                    what = "a file says it is disk #%d of %d" % (ndisk + 1, ndisk)
+                tag = "bad%d%c" % (ndisk, ord("a") + kn)
+                members, hdrs = build_set(tag, nums, wins, pvols, table, disk_num, over)
+                perms = orders(ndisk)
+                chosen = [perms[0], tuple(reversed(perms[0]))] + rng.sample(perms, min(2, len(perms)))
+                for perm in dict.fromkeys(chosen):
+                    idx = len(self.variants)
+                    self.hdrs[idx] = [hdrs[i] for i in perm]
+                    self.variants.append(("badset%d%c-%s" % (ndisk, ord("a") + kn, "".join(str(i + 1) for i in perm)),
+                                          [self.path(members[i]) for i in perm],
+                                          "%d-disk set with an inconsistent header (%s), files passed in order %s"
+                                          % (ndisk, what, [i + 1 for i in perm])))
+                    # judged: never accepted, and the status the model predicts for this order
+                    self.ref[idx] = idx
 
     # -- ELF -----------------------------------------------------------------
     def make_elf(self):
@@ -391,6 +495,12 @@ def judge(run, sc, lines, impl, crashes):
         return [(0, "the plain twin itself could not be dumped: %s" % (impl[0][:200] if impl else ""),
                  "e2e plain " + sc.fmt)]
     ref = canon(impl[0])
+    model_open = {}
+    if sc.hdrs:
+        idx = sorted(sc.hdrs)
+        out = core.run_model("flat", run.casefile("e2e-hdrs.txt", ["H " + " ".join(sc.hdrs[i]) for i in idx]))
+        model_open = dict(zip(idx, out))
+        run.count("e2e-sadump-open-status-vs-model", len(idx))
     if not impl[0].startswith("open=0"):
         run.count("e2e-plain-not-opened")
     for i in range(1, len(lines)):
@@ -403,12 +513,23 @@ def judge(run, sc, lines, impl, crashes):
                         % (rc, name, desc, sc.fmt), "e2e crash " + sig))
             continue
         got = canon(impl[i])
-        if got != ref:
+        if i in model_open and model_open[i] != got[0]:
+            bad.append((i, "variant %s (%s): kdump_open_fdset returns %s, the model of sadump_probe "
+                        "(DiskSetModel.probe_set) says %s for headers %s"
+                        % (name, desc, got[0], model_open[i], " ".join(sc.hdrs[i])),
+                        "e2e sadump open status %s model %s" % (got[0], model_open[i])))
+        r = sc.ref.get(i, 0)
+        this_ref = ref if r == 0 else canon(impl[r])
+        what = "the plain twin" if r == 0 else "the same files passed in order " + sc.variants[r][0]
+        if r and impl[i].startswith("open=0"):
+            bad.append((i, "an inconsistent set was accepted: %s" % desc,
+                        "e2e inconsistent set accepted " + sc.fmt))
+        if got != this_ref:
             stem = name.split("-")[0].rstrip("0123456789")
             nfiles = len(paths)
-            for cat, d in sorted(diffs(ref, got).items()):
-                bad.append((i, "variant %s (%s) of a %s dump is distinguishable from the plain twin "
-                            "(%s): %s" % (name, desc, sc.fmt, cat, d),
+            for cat, d in sorted(diffs(this_ref, got).items()):
+                bad.append((i, "variant %s (%s) of a %s dump is distinguishable from %s "
+                            "(%s): %s" % (name, desc, sc.fmt, what, cat, d),
                             "e2e differs %s %s files=%d %s" % (sc.fmt, stem, nfiles, cat)))
     return bad
 
